@@ -152,6 +152,7 @@ def run(ctx):
     ro_ops = 0
     ro_refused = 0
     swept = 0
+    mutators = 0
     for k, h in enumerate(hists):
         for sw in h.get("ro_sweep") or []:
             swept += sw["accessors"]
@@ -159,6 +160,19 @@ def run(ctx):
                 failures.append(("a read accessor answers differently in a read-only session than in a writable session on the same bytes",
                                  {"history": h["ops"][:sw["step"]], "accessor": sw["diffs"][0][0]},
                                  {"outcome": "differs", "writable": sw["diffs"][0][1], "read_only": sw["diffs"][0][2], "count": sw["ndiffs"]}))
+            mutators += sw.get("mutators", 0)
+            dc = sw.get("decorated_copy")
+            if dc:
+                mutators += dc["mutators"]
+                if dc["nsilent"] or not dc["bytes_unchanged"]:
+                    failures.append(("a mutating call returned normally in a read-only session (copy with every optional attribute set)"
+                                     if dc["nsilent"] else "a read-only session changed the bytes on disk",
+                                     {"history": h["ops"][:sw["step"]], "call": ("%s = %s" % tuple(dc["silent"][0])) if dc["silent"] else None},
+                                     {"outcome": "accepted", "count": dc["nsilent"]}))
+            if sw.get("nsilent"):
+                failures.append(("a mutating call returned normally in a read-only session",
+                                 {"history": h["ops"][:sw["step"]], "call": "%s = %s" % tuple(sw["silent"][0])},
+                                 {"outcome": "accepted", "count": sw["nsilent"]}))
         readonly = False
         for op, res in zip(h["ops"], h["results"]):
             if op[0] == "reopen":
@@ -191,7 +205,7 @@ def run(ctx):
     ctx.coverage.update({
         "evaluations": len(cases) + 3 + len(hists),
         "readonly_histories": len(hists), "ops_in_readonly_sessions": ro_ops, "of_which_refused": ro_refused,
-        "accessors_compared_ro_vs_rw": swept,
+        "accessors_compared_ro_vs_rw": swept, "setters_attempted_read_only": mutators,
         "distinct_nontrivial": len(set(repr(c) for c in cases)),
         "rule": "crafted files (a real NIX file with a block, an array and a section whose header attributes are rewritten "
                 "with h5py): version triples {0..3}^3 and the 27 neighbours of the library version x 3 modes x id "
